@@ -341,13 +341,24 @@ fn apply_default_as_fill_with(plan: &mut MigrationPlan, current_schema: &[TableD
             fill_with,
         } = action
             && fill_with.is_none()
-            && let Some(default) = current_schema
+            && let Some(col) = current_schema
                 .iter()
                 .find(|t| t.name == *table)
                 .and_then(|t| t.columns.iter().find(|c| c.name == *column))
-                .and_then(|c| c.default.as_ref())
+            && let Some(default) = col.default.as_ref()
         {
-            *fill_with = Some(default.to_sql());
+            let value = default.to_sql();
+            // An enum default may be spelled as a bare label (`active`); as a fill value it
+            // must be a SQL string literal, like the values the enum prompt produces.
+            let bare_label = col.r#type.enum_variant_names().is_some()
+                && !value.trim().is_empty()
+                && !value.trim().starts_with('\'')
+                && !value.contains('(');
+            *fill_with = Some(if bare_label {
+                format!("'{}'", value.trim())
+            } else {
+                value
+            });
         }
     }
 }
